@@ -237,6 +237,40 @@ class BoundaryGen:
         return d
 
 
+# ------------------------------------------------------------------ enum classes of several kinds
+
+ENUM_KINDS = ["plain", "plain", "int", "intflag", "str_diff", "str_same", "float"]
+
+
+def make_enum(name, members, kind):
+    """an enum class with the given member names; the member VALUES are chosen so that no generated document
+    value is == to a member (the model addresses members by name only)"""
+    import enum
+    if kind == "int":
+        return enum.IntEnum(name, {m: 1001 + i for i, m in enumerate(members)})
+    if kind == "intflag":
+        return enum.IntFlag(name, {m: 1024 << i for i, m in enumerate(members)})
+    if kind == "str_diff":
+        return enum.Enum(name, {m: m.lower() + "_v" for m in members}, type=str)
+    if kind == "str_same":
+        return enum.Enum(name, {m: m for m in members}, type=str)
+    if kind == "float":
+        return enum.Enum(name, {m: 1001.5 + i for i, m in enumerate(members)}, type=float)
+    return enum.Enum(name, {m: i + 1 for i, m in enumerate(members)})
+
+
+def make_ctx(case):
+    ctx = dump.Ctx()
+    kinds = case.get("enumKinds") or {}
+    for name, members in gen.ENUMS.items():
+        ctx.enums[name] = make_enum(name, members, kinds.get(name, "plain"))
+    return ctx
+
+
+def pick_kinds(rng):
+    return {name: rng.choice(ENUM_KINDS) for name in sorted(gen.ENUMS)}
+
+
 # ------------------------------------------------------------------ building real classes
 
 def build_tree(decl, ctx, mapper_table=None, fast=False, non_fast=(), split=None):
@@ -401,7 +435,8 @@ def gen_trusted(rng, tier, n_classes):
         vg = gen.ValGen(rng)
         table = dict(bg.mappers)
         wire_table = [[n, wire_mapper(m)] for n, m in sorted(table.items())]
-        base = {"suite": "shortcut", "mode": "trusted", "cls": cls, "mappers": wire_table, "mapperSpec": table}
+        base = {"suite": "shortcut", "mode": "trusted", "cls": cls, "mappers": wire_table, "mapperSpec": table,
+                "enumKinds": pick_kinds(rng)}
         for _ in range(4):
             kw = vg.valid_kw(cls)
             if kw is gen.NOVALUE:
@@ -445,6 +480,7 @@ def gen_construct(rng, tier, n_classes):
         cls = bg.class_decl(0)
         C.fix_accepts(cls)
         vg = gen.ValGen(rng)
+        kinds = pick_kinds(rng)
         for _ in range(4):
             kw = vg.valid_kw(cls)
             if kw is gen.NOVALUE:
@@ -454,7 +490,7 @@ def gen_construct(rng, tier, n_classes):
                     if n not in cls["required"] and all(k != n for k, _ in kw) and rng.random() < 0.4:
                         kw = kw + [[n, None]]
             cases.append({"suite": "shortcut", "mode": "construct", "cls": cls, "kw": kw, "stream": "valid",
-                          "re": gen.re_table(cls, kw)})
+                          "enumKinds": kinds, "re": gen.re_table(cls, kw)})
     return cases
 
 
@@ -469,6 +505,7 @@ def gen_fast(rng, tier, n_classes):
         nested = [n for n in class_names(cls) if n != cls["name"]]
         non_fast = [n for n in nested if rng.random() < 0.12]
         vg = gen.ValGen(rng)
+        kinds = pick_kinds(rng)
         for _ in range(3):
             kw = vg.valid_kw(cls)
             if kw is gen.NOVALUE:
@@ -490,16 +527,179 @@ def gen_fast(rng, tier, n_classes):
                             extra = {"split": rng.randint(1, len(cls["fields"]) - 1),
                                      "parentFirst": rng.choice(["instantiate", "create"])}
                     cases.append({"suite": "shortcut", "mode": "fast", "cls": cls, "kw": kw, "serializeNone": sn,
-                                  "compact": compact, "nonFast": non_fast, "history": hist, **extra,
+                                  "compact": compact, "nonFast": non_fast, "history": hist, "enumKinds": kinds, **extra,
                                   "mappers": [[n, wire_mapper(m)] for n, m in sorted(table.items())], "mapperSpec": table,
                                   "stream": f"sn={int(sn)},compact={int(compact)},{hist}", "re": gen.re_table(cls, kw)})
     return cases
 
 
+# ------------------------------------------------------------------ Enum(serialization_by_value=True): oracle only
+
+ENUM_SITES = ["field", "optional", "optionalRev", "array", "set"]
+
+
+def gen_enumvalue(rng, tier, n_classes):
+    """classes whose fields are Enum fields over enum classes of every kind, by name and BY VALUE (the model has
+    no by-value enums: these cases run the property's oracle on the real code only)"""
+    cases = []
+    for ci in range(n_classes):
+        n = rng.choice([1, 2, 3])
+        names = rng.sample(FIELD_NAMES, n)
+        fields = []
+        for nm in names:
+            ename = rng.choice(sorted(gen.ENUMS))
+            fields.append({"name": nm, "site": rng.choice(ENUM_SITES), "enum": ename, "byValue": rng.random() < 0.7})
+        if rng.random() < 0.4:
+            fields.append({"name": "z_n", "site": "int"})
+        # other vocabulary the model does not have: DecimalNumber fields, Constant attributes (int / enum member)
+        if rng.random() < 0.3:
+            fields.append({"name": "z_d", "site": "decimal"})
+        if rng.random() < 0.25:
+            fields.append({"name": "z_k", "site": "constInt"})
+        if rng.random() < 0.25:
+            fields.append({"name": "z_e", "site": "constEnum", "enum": rng.choice(sorted(gen.ENUMS))})
+        kinds = pick_kinds(rng)
+        required = [f["name"] for f in fields if rng.random() < 0.6 and not f["site"].startswith("const")]
+        for _ in range(3):
+            vals = []
+            for f in fields:
+                if f["site"].startswith("const"):
+                    continue
+                if f["name"] not in required and rng.random() < 0.3:
+                    continue
+                if f["site"] == "decimal":
+                    vals.append([f["name"], rng.choice(["1.5", "0.25", 2, "10"])])
+                elif f["site"] == "int":
+                    vals.append([f["name"], rng.choice([0, 1, 7])])
+                elif f["site"] in ("array", "set"):
+                    k = rng.randint(0, 3)
+                    ms = [rng.choice(gen.ENUMS[f["enum"]]) for _ in range(k)]
+                    vals.append([f["name"], ms])
+                else:
+                    vals.append([f["name"], rng.choice(gen.ENUMS[f["enum"]])])
+            cases.append({"suite": "shortcut", "mode": "enumvalue", "fields": fields, "required": required,
+                          "members": vals, "enumKinds": kinds, "ignoreNone": rng.random() < 0.3,
+                          "stream": "by-value", "cls": {"k": "struct", "name": "E%d" % ci, "required": required,
+                                                        "fields": [], "accepts": []}})
+    return cases
+
+
+def run_enumvalue(case):
+    from typedpy import Enum as EnumF, Array as ArrayF, Set as SetF, AnyOf as AnyOfF, Integer as IntegerF, DecimalNumber
+    from typedpy.commons import Constant
+    from typedpy.structures import NoneField
+    from decimal import Decimal
+    ctx = make_ctx(case)
+
+    def body():
+        b = {}
+        for f in case["fields"]:
+            if f["site"] == "int":
+                b[f["name"]] = IntegerF()
+                continue
+            if f["site"] == "decimal":
+                b[f["name"]] = DecimalNumber()
+                continue
+            if f["site"] == "constInt":
+                b[f["name"]] = Constant(7)
+                continue
+            if f["site"] == "constEnum":
+                b[f["name"]] = Constant(ctx.enums[f["enum"]][gen.ENUMS[f["enum"]][0]])
+                continue
+            mk = lambda: EnumF(values=ctx.enums[f["enum"]], serialization_by_value=bool(f["byValue"]))
+            b[f["name"]] = {"field": mk, "optional": lambda: AnyOfF([mk(), NoneField()]),
+                            "optionalRev": lambda: AnyOfF([NoneField(), mk()]),
+                            "array": lambda: ArrayF(items=mk()), "set": lambda: SetF(items=mk())}[f["site"]]()
+        b["_required"] = list(case["required"])
+        if case.get("ignoreNone"):
+            b["_ignore_none"] = True
+        return b
+    name = case["cls"]["name"]
+    try:
+        P = type(name, (Structure,), body())
+        F = type(name, (Structure, FastSerializable), body())
+    except Exception as e:
+        return {"unbuildable": f"class: {type(e).__name__}: {e}"}
+    spec = {f["name"]: f for f in case["fields"]}
+
+    def member(f, m):
+        return ctx.enums[f["enum"]][m]
+
+    def json_of(f, m):
+        mem = member(f, m)
+        return mem.value if f["byValue"] else mem.name
+    doc, kw = {}, {}
+    for nm, v in case["members"]:
+        f = spec[nm]
+        if f["site"] == "int":
+            doc[nm] = kw[nm] = v
+        elif f["site"] == "decimal":
+            doc[nm] = v
+            kw[nm] = Decimal(v)
+        elif f["site"] in ("array", "set"):
+            doc[nm] = [json_of(f, m) for m in v]
+            ms = [member(f, m) for m in v]
+            kw[nm] = set(ms) if f["site"] == "set" else ms
+        else:
+            doc[nm] = json_of(f, v)
+            kw[nm] = member(f, v)
+    res = {"verdict": verdict_of(P), "doc": repr(doc)[:300]}
+
+    def attempt(fn):
+        try:
+            return fn()
+        except Exception as e:
+            return e
+    x = attempt(lambda: Deserializer(P).deserialize(copy.deepcopy(doc)))
+    y = attempt(lambda: Deserializer(P).deserialize(copy.deepcopy(doc), direct_trusted_mapping=True))
+    rec = lambda v: {"err": C.err_name(v), "msg": str(v)[:160]} if isinstance(v, Exception) else {"ok": repr(v)[:300]}
+    res["regular"], res["trusted"] = rec(x), rec(y)
+    if not isinstance(x, Exception) and not isinstance(y, Exception):
+        res["eq"] = [bool(x == y), bool(y == x)]
+        sx, sy = attempt(lambda: Serializer(x).serialize()), attempt(lambda: Serializer(y).serialize())
+        res["serX"], res["serY"] = rec(sx), rec(sy)
+        res["ser_same"] = not isinstance(sx, Exception) and not isinstance(sy, Exception) and _unordered(sx) == _unordered(sy)
+    # fast twin, on the validated constructor's instance
+    p = attempt(lambda: P(**copy.deepcopy(kw)))
+    f_ = attempt(lambda: F(**copy.deepcopy(kw)))
+    if not isinstance(p, Exception) and not isinstance(f_, Exception):
+        a, b = attempt(lambda: Serializer(p).serialize()), attempt(lambda: f_.serialize())
+        res["fast_regular"], res["fast"] = rec(a), rec(b)
+        res["fast_same"] = not isinstance(a, Exception) and not isinstance(b, Exception) and _unordered(a) == _unordered(b)
+        res["regular_ser_ok"] = not isinstance(a, Exception)
+        if isinstance(a, dict) and isinstance(b, dict):
+            res["fast_diff_keys"] = sorted(k for k in set(a) | set(b)
+                                           if (k in a) != (k in b) or _unordered(a.get(k)) != _unordered(b.get(k)))
+    # trusted construction
+    t = attempt(lambda: P.from_trusted_data(None, **copy.deepcopy(kw)))
+    if not isinstance(p, Exception):
+        res["ftd"] = rec(t)
+        if not isinstance(t, Exception):
+            res["ftd_eq"] = [bool(p == t), bool(t == p)]
+            a, b = attempt(lambda: Serializer(p).serialize()), attempt(lambda: Serializer(t).serialize())
+            res["ftd_ser_same"] = not isinstance(a, Exception) and not isinstance(b, Exception) and _unordered(a) == _unordered(b)
+            consts = {f["name"] for f in case["fields"] if f["site"].startswith("const")}
+            names = {f["name"] for f in case["fields"]}
+            pd, td = ({k: v for k, v in o.__dict__.items() if k in names} for o in (p, t))
+            res["ftd_only_consts"] = (set(pd) - set(td) <= consts and set(td) <= set(pd)
+                                      and all(bool(pd[k] == td[k]) for k in td))
+    return res
+
+
+def _unordered(doc):
+    """serialized document with arrays as sorted reprs (Set fields) — good enough for enum names / values"""
+    if isinstance(doc, dict):
+        return {k: _unordered(v) for k, v in doc.items()}
+    if isinstance(doc, list):
+        return sorted((repr(_unordered(v)) for v in doc))
+    return repr(doc) if isinstance(doc, float) else doc
+
+
 def gen_cases(rng, tier, scale=1.0):
     q = tier == "quick"
     n = int((450 if q else 6000) * scale)
-    return gen_trusted(rng, tier, n) + gen_construct(rng, tier, int(n * 0.35)) + gen_fast(rng, tier, int(n * 0.5))
+    return (gen_trusted(rng, tier, n) + gen_construct(rng, tier, int(n * 0.35)) + gen_fast(rng, tier, int(n * 0.5))
+            + gen_enumvalue(rng, tier, int(n * 0.25)))
 
 
 # ------------------------------------------------------------------ real code
@@ -541,7 +741,7 @@ def _ser(x, ctx, **kw):
 
 
 def run_trusted(case):
-    ctx = C.make_ctx()
+    ctx = make_ctx(case)
     decl = case["cls"]
     table = case.get("mapperSpec") or {}
     try:
@@ -595,7 +795,7 @@ def run_trusted(case):
 
 
 def run_construct(case):
-    ctx = C.make_ctx()
+    ctx = make_ctx(case)
     decl = case["cls"]
     try:
         cls = build_tree(decl, ctx)
@@ -654,7 +854,7 @@ def run_fast(case):
     table = case.get("mapperSpec") or {}
     hist = case.get("history", "explicit")
     split = case.get("split") if hist == "inherit" else None
-    ctx_f, ctx_p = C.make_ctx(), C.make_ctx()
+    ctx_f, ctx_p = make_ctx(case), make_ctx(case)
     try:
         F = build_tree(decl, ctx_f, table, fast=True, non_fast=case.get("nonFast", ()), split=split)
         P = build_tree(decl, ctx_p, table, split=split)
@@ -721,7 +921,8 @@ def run_fast(case):
 
 
 def run_impl(case):
-    return {"trusted": run_trusted, "construct": run_construct, "fast": run_fast}[case["mode"]](case)
+    return {"trusted": run_trusted, "construct": run_construct, "fast": run_fast,
+            "enumvalue": run_enumvalue}[case["mode"]](case)
 
 
 # ------------------------------------------------------------------ driver line
@@ -729,6 +930,8 @@ def run_impl(case):
 def line(case, impl):
     l = {"suite": "shortcut", "mode": case["mode"], "cls": impl.get("cls_actual", case["cls"]), "re": case.get("re", []),
          "mappers": case.get("mappers", [])}
+    if case["mode"] == "enumvalue":
+        return {"suite": "shortcut", "mode": "oracle", "cls": case["cls"]}
     if case["mode"] == "trusted":
         l["doc"] = case["doc"]
         l["opts"] = impl.get("opts_actual", {})
@@ -739,6 +942,7 @@ def line(case, impl):
         l["serializeNone"] = case["serializeNone"]
         l["compact"] = case["compact"]
         l["nonFast"] = case.get("nonFast", [])
+        l["jsonEnums"] = sorted(n for n, k in (case.get("enumKinds") or {}).items() if k != "plain")
     return l
 
 
@@ -768,6 +972,16 @@ def tags(case, impl, model):
         return out
     for _, fd in case["cls"]["fields"]:
         out.append("field:" + shape_of(fd)[:40])
+    for name, kind in sorted((case.get("enumKinds") or {}).items()):
+        out.append("enum-kind:" + kind)
+    if case["mode"] == "enumvalue":
+        for f in case["fields"]:
+            if f["site"] in ENUM_SITES:
+                out.append("enum-site:" + f["site"] + (":by-value" if f["byValue"] else ":by-name"))
+            elif f["site"] != "int":
+                out.append("probe-site:" + f["site"])
+        out.append("verdict:" + str(impl.get("verdict")))
+        return out
     if case.get("mapperSpec"):
         out.append("mappers:yes")
     if case["mode"] == "trusted":
